@@ -141,3 +141,85 @@ def run(prog, tier, repo):
                                       f'that differ only in `{fname}` are treated as the same type')
     res.floor('payload relations', n_rel, 20)
     return [res]
+
+
+# ---------------------------------------------------------------------------------------------------------------------
+# REL-FIELDS, pairwise form: the relation does not have to be between two *parameters*. Wherever a checker function compares
+# the same field of two different values of one payload struct with `==` (e.g. the declared upper bound of a type and a
+# required bound), it is relating those two values and must look at every identity field of the struct on both of them.
+
+def run_pairwise(prog, tier, repo):
+    from ..dataflow import operand_root
+    res = RuleResult('REL-FIELDS-PAIR', 'C06: a checker function that compares one identity field of two values of a payload struct '
+                     'with `==` reads every identity field of that struct from both values')
+    n = 0
+    for b in sorted(prog.bodies.values(), key=lambda x: x.name):
+        if b.crate != 'samlang_checker' or '::tests' in b.name:
+            continue
+        pairs = {}
+        for bl in b.blocks:
+            t = bl.term
+            if bl.cleanup or t[0] != 'call' or len(t[3]) != 2:
+                continue
+            nm = callee(t)[1] or ''
+            if not nm.endswith(('PartialEq>::eq', 'PartialEq>::ne', 'PartialEq::eq', 'PartialEq::ne')):
+                continue
+            ends = []
+            for o in t[3]:
+                if o[0] not in ('c', 'm'):
+                    ends.append(None)
+                    continue
+                r, p = operand_root(b, o)
+                fs = [e for e in p if e[0] == 'f']
+                if r is None or not fs:
+                    ends.append(None)
+                    continue
+                last = fs[-1]
+                prefix = tuple((e[1], e[2], e[3]) for e in fs[:-1])
+                ends.append(((r, prefix), (last[1], last[2]), last[3], t[7]))
+            if ends[0] is None or ends[1] is None:
+                continue
+            (ra, sa, fa, line), (rb, sb, fb, _) = ends
+            if sa != sb or fa != fb or ra == rb:
+                continue
+            adt = prog.adts.get(sa[0])
+            if adt is None or not adt.name.startswith('samlang_checker::type_') or adt.kind != 'struct':
+                continue
+            key = (tuple(sorted([ra, rb], key=str)), sa)
+            pairs.setdefault(key, {'roots': (ra, rb), 'cmp': set(), 'line': line})['cmp'].add(fa)
+        if not pairs:
+            continue
+        # all field reads per (root, prefix)
+        reads = {}
+        for pl, bi, line in places_read(b):
+            r, p0 = root_local(b, pl.local)
+            full = tuple(p0) + tuple(e for e in pl.proj if e[0] in ('f', 't', 'v'))
+            fs = [e for e in full if e[0] == 'f']
+            for k, e in enumerate(fs):
+                prefix = tuple((x[1], x[2], x[3]) for x in fs[:k])
+                reads.setdefault(((r, prefix), (e[1], e[2])), set()).add(e[3])
+        for (rs, sa), info in pairs.items():
+            adt = prog.adts[sa[0]]
+            fields = adt.variants[sa[1]].fields
+            ident = [k for k, f in enumerate(fields) if not (f.ty.k == 'adt' and f.ty.id.endswith('::Reason'))]
+            if not (info['cmp'] & set(ident)):
+                continue
+            n += 1
+            ra, rb = info['roots']
+            sname = adt.name.split('::')[-1]
+            for k in ident:
+                fname = fields[k].name
+                key = f'{b.id}:{sname}.{fname}:pair#{n}'
+                ina = k in reads.get((ra, sa), set())
+                inb = k in reads.get((rb, sa), set())
+                if ina and inb:
+                    res.ok(key, b.loc(info['line']), f'{sname}.{fname} read from both compared values')
+                elif (b.id, sname, fname) in EXEMPT:
+                    res.ok(key, b.loc(info['line']), 'exempt: ' + EXEMPT[(b.id, sname, fname)])
+                else:
+                    res.violation(key, b.loc(info['line']), f'{b.name} compares ' + ', '.join(sorted(fields[x].name for x in info['cmp'])) +
+                                  f' of two {sname} values with `==` but reads `{fname}` from ' +
+                                  ('neither' if not ina and not inb else 'only one') + ' of them: values that differ only in '
+                                  f'`{fname}` (e.g. two instantiations of one generic interface) are treated as the same type')
+    res.analysed['pairwise_comparisons'] = n
+    return [res]
